@@ -195,6 +195,54 @@ pub trait Fl: 'static {
     fn g_from_json(s: &str) -> Result<Self::Graph, String>;
     fn g_to_cbor(g: &Self::Graph) -> Result<Vec<u8>, String>;
     fn g_from_cbor(b: &[u8]) -> Result<Self::Graph, String>;
+    /// the same wire format with `String` keys (key i is written `skey(i)`): deserialise and
+    /// project back to ids in the shape of `project_graph`
+    fn g_strkeys_from(b: &[u8], json: bool, pad: usize) -> Result<Value, String>;
+}
+
+/// the string spelling of abstract key `k`: longer than 32 bytes, multi-byte characters at odd
+/// (k odd) or even (k even) byte offsets, a 4-byte character at the end
+pub fn skey(k: K) -> String {
+    format!("{}{}\u{1F511}{}", "x".repeat(k as usize), "\u{e9}".repeat(20), k)
+}
+pub fn skey_rev(s: &str, pad: usize) -> K {
+    (1..=(pad as K + 8)).find(|&i| skey(i) == s).unwrap_or(0)
+}
+
+#[doc(hidden)]
+#[macro_export]
+macro_rules! strkeys_body {
+    ($g:ident, $split:expr) => {
+        fn g_strkeys_from(b: &[u8], json: bool, pad: usize) -> Result<Value, String> {
+            type SG = $g::Graph<String, NV, EV>;
+            let gr: SG = if json {
+                serde_json::from_slice::<SG>(b).map_err(|e| e.to_string())?
+            } else {
+                serde_cbor::from_slice::<SG>(b).map_err(|e| e.to_string())?
+            };
+            let mut keys: Vec<K> = vec![];
+            let mut vals = vec![0i64; pad];
+            let mut out: Vec<Vec<(K, EV)>> = vec![vec![]; pad];
+            let mut inn: Vec<Vec<(K, EV)>> = vec![vec![]; pad];
+            let mut beyond = vec![];
+            for (k, n) in gr.iter() {
+                assert!(n.key() == k, "VERIF-ACCESSOR: container key != node key");
+                let id = skey_rev(k, pad);
+                keys.push(id);
+                if id >= 1 && (id as usize) <= pad {
+                    vals[(id - 1) as usize] = *n.value();
+                    let split: fn(&$g::Node<String, NV, EV>, usize) -> (Vec<(K, EV)>, Vec<(K, EV)>) = $split;
+                    let (o, i) = split(n, pad);
+                    out[(id - 1) as usize] = o;
+                    inn[(id - 1) as usize] = i;
+                } else {
+                    beyond.push(id);
+                }
+            }
+            keys.sort();
+            Ok(json!({"keys": keys, "vals": vals, "out": out, "inn": inn, "beyond": beyond, "len": gr.len()}))
+        }
+    };
 }
 
 pub fn err_name(e: &gdsl::error::Error) -> &'static str {
@@ -405,6 +453,10 @@ macro_rules! directed_flavour {
                 type Node = g::Node<K, NV, EV>;
                 type Graph = g::Graph<K, NV, EV>;
                 common_body!();
+                strkeys_body!(g, |n, pad| (
+                    n.iter_out().map(|e| (skey_rev(e.1.key(), pad), e.2)).collect(),
+                    n.iter_in().map(|e| (skey_rev(e.0.key(), pad), e.2)).collect()
+                ));
 
                 fn out_list(n: &Self::Node) -> Vec<(K, EV)> {
                     n.iter_out()
@@ -433,12 +485,20 @@ macro_rules! directed_flavour {
                     v
                 }
                 fn edge_loop(n: &Self::Node, dir_in: bool, body: &mut dyn FnMut(K, K, EV)) {
+                    // driven the way `collect()` / `extend()` drive an iterator: `size_hint()` may be
+                    // asked for between any two `next()` calls
                     if dir_in {
-                        for e in n.iter_in() {
+                        let mut it = n.iter_in();
+                        loop {
+                            let _ = it.size_hint();
+                            let Some(e) = it.next() else { break };
                             body(*e.1.key(), *e.0.key(), e.2);
                         }
                     } else {
-                        for e in n.iter_out() {
+                        let mut it = n.iter_out();
+                        loop {
+                            let _ = it.size_hint();
+                            let Some(e) = it.next() else { break };
                             body(*e.0.key(), *e.1.key(), e.2);
                         }
                     }
@@ -582,6 +642,11 @@ macro_rules! undirected_flavour {
                 type Node = g::Node<K, NV, EV>;
                 type Graph = g::Graph<K, NV, EV>;
                 common_body!();
+                strkeys_body!(g, |n, pad| {
+                    let a: Vec<(K, EV)> = n.iter().map(|e| (skey_rev(e.1.key(), pad), e.2)).collect();
+                    let k = n.verif_outbound_len().min(a.len());
+                    (a[..k].to_vec(), a[k..].to_vec())
+                });
 
                 fn out_list(n: &Self::Node) -> Vec<(K, EV)> {
                     let a = adj(n);
@@ -601,7 +666,10 @@ macro_rules! undirected_flavour {
                     v
                 }
                 fn edge_loop(n: &Self::Node, _dir_in: bool, body: &mut dyn FnMut(K, K, EV)) {
-                    for e in n.iter() {
+                    let mut it = n.iter();
+                    loop {
+                        let _ = it.size_hint();
+                        let Some(e) = it.next() else { break };
                         body(*e.0.key(), *e.1.key(), e.2);
                     }
                 }
